@@ -214,6 +214,25 @@ def gen_cases(tier, seed):
             spec['mode'] = rng.choice(['shutdown_plain', 'shutdown_cancel', 'with_exc'])
             spec['trigger'] = 'immediate'
         cases.append(spec)
+    # (K) calls the manager rejects at call time (a bucket it does not support, an extra argument outside the allow-list) among
+    # ordinary transfers, the caller carrying on: every exit still has to return
+    LAMBDA_ARN = 'arn:aws:s3-object-lambda:us-west-2:123456789012:accesspoint/vf'
+    for i in range(40 if quick else 400):
+        spec = gen.mix(rng, rng.choice([1, 2]), hi=rng.choice([1, 2, 3]))
+        spec['family'] = 'K-rejected-call'
+        kind, extra = rng.choice(gen.KINDS)
+        bad = dict({'kind': kind, 'size': rng.choice([5, 20])}, **extra)
+        if rng.random() < 0.6:
+            bad['bucket'] = LAMBDA_ARN
+        else:
+            bad['extra_args'] = {'VfNotAnArgument': 'x'}
+        spec['transfers'].insert(rng.randrange(len(spec['transfers']) + 1), bad)
+        spec['mode'] = rng.choice(['plain', 'shutdown_plain', 'shutdown_plain', 'shutdown_cancel', 'with_exc'])
+        if spec['mode'] == 'plain':
+            spec.pop('mode')
+        else:
+            spec['trigger'] = 'immediate'
+        cases.append(spec)
     # (I) executor / subscriber flavours: everything inline in the submitting thread (NonThreadedExecutor), no subscribers,
     # duck-typed subscribers offering only some callbacks, under small limits, faults and cancels
     for i in range(150 if quick else 1500):
